@@ -1,6 +1,7 @@
 import TantivyModel.Driver.Proto
 import TantivyModel.Model.AggMerge
 import TantivyModel.Model.AggExtStats
+import TantivyModel.Model.AggRange
 /-!
 Line protocol of the C14 model (sums are exact integers: `M := Int`).
 
@@ -11,6 +12,7 @@ Line protocol of the C14 model (sums are exact integers: `M := Int`).
   C14 limit  <n> <req> <parts>   finalizeGuarded n on the merged tree: `ok <res>` | `err <count>`
   C14 defaults <size|_> <segment_size|_> <min_doc_count|_>   size, segment_size, min_doc_count, default bucket limit
   C14 extstats <sigma*4> <parts of integers>   extended_stats accumulator (Welford + Chan over Rat): count sum Σv² M2 sigma
+  C14 normranges <from:to;…>                    cut points of the normalised range request, or `err` (overlap)
   C14 histpos <interval> <offset> <v>      bucket position
   C14 rangeidx <cuts> <v>                  range bucket index
 
@@ -195,6 +197,18 @@ def handle : List String → String
         | last :: restRev => restRev.reverse.foldl ExtS.merge last
       s!"{r.count} {r.sum} {r.q} {r.m2} {r.sigma}"
     | _, _ => "bad-op"
+  | ["normranges", rs] =>
+    -- ranges `from:to` separated by `;` (`_` = open end): the cut points of the normalised request or `err`
+    match (rs.splitOn ";").mapM (fun r => match r.splitOn ":" with
+        | [a, b] => match optInt a, optInt b with
+          | some a, some b => some (a, b)
+          | _, _ => Option.none
+        | _ => Option.none) with
+    | some ranges =>
+      match normRanges ranges with
+      | some bs => Proto.showIntList (cutsOf bs)
+      | Option.none => "err"
+    | Option.none => "bad-op"
   | ["histpos", iv, off, v] =>
     match iv.toInt?, off.toInt?, v.toInt? with
     | some iv, some off, some v => if iv ≤ 0 then "bad-op" else toString (histPos iv off v)
